@@ -30,7 +30,8 @@ EXPLANATION = (
     'occurrence, drops container entries named in either override set and assembles pre + kept + post; __iadd__ prepends a batch in its own order. '
     'R4 the routing table of extend_preserving_lflags: exactly the -l/-L arguments outside always_dedup_args take the direct route. '
     'R5 a method that selects `X = self.copy() if flag else self` (to_native) applies every change through X, none to self by name; '
-    'R6 __add__/__radd__ build a fresh object from the left operand and add the right one with += (no raw splice, operand order kept). '
+    'R6 __add__/__radd__ build a fresh object from the left operand and add the right one with += (no raw splice, operand order kept); no returning path hands back '
+    'an operand itself (the sum must not alias self or the other list); the addition may be left out only on a path that has tested the other operand empty. '
     'objects derived from self (copy, +) are built with type(self), never a literal family class that has subclasses; '
     'R7 every value stored in X._container is a list created for the object (copy/display/locally built), on every path; '
     'R2 also strips hand-written memoisation of the classifiers and requires the cache key to contain the class. '
@@ -39,10 +40,16 @@ EXPLANATION = (
     'entries come from; R1 accepts the read of an unflushed _container only as part of such a transfer of all three stores to a new object. '
     'R9 a batch stays a batch: extend() is defined by the family (the inherited MutableSequence.extend appends element by element) and hands its argument to += whole; '
     'no family method forwards the elements of an iterable unconditionally one by one to append / += [x] / extend([x]). '
+    'R1 reads a module-level guard decorator (one inner wrapper, optionally @wraps / returned through T.cast) whose prologue is only X.flush_pre_post() as a flush at method entry; '
+    'R3 also reads the declarative form of a queue walk: override set stated as `{x for x in S if kind(x) is OVERRIDDEN}`, winner stated as last-index map / S.index(x) of the same store. '
     'Normal form (all rules): `for x in self._gen(..)` over a private generator is read as the producer body with each `yield e` replaced by `x = e; <loop body>` '
     'when the lock-step correspondence is exact (no break, no try/with around a yield, no send/return value). '
     'Does NOT decide the equivalence of lazy and eager meaning over operation sequences (a run-time relation), the classification of concrete argument '
     'strings (only the tables, the chain and the regex language are decided, no body is evaluated on sample arguments), the DCompilerArgs tables, nor the callers in the backends. '
+    'Not decided: which arguments to_native puts between --start-group/--end-group (the language of GROUP_FLAGS is applied with search over three alternatives with their own anchors '
+    'and a negative lookahead; the full-match NFA of sa.rx does not model per-alternative anchors, so membership of lib*.so.N.N.N "as used" cannot be stated exactly - seed 7/2); '
+    'whether the backends add each argument source as an increment of its own (`commands += project + global` merges two -I batches into one - seed 7/1; '
+    'the pinned Compiler.get_build_link_args does the same for link arguments, so no source-level condition separates the two). '
     'Out of scope by design (not armed): the constructor and list + CompilerArgs take the initial list verbatim (copy() depends on it), '
     'extend_preserving_lflags reorders within a batch, append_direct/extend_direct arguments are never re-de-duplicated and are queued per element '
     '(a per-element route selected by a test on the element is not judged by R9).')
